@@ -8,7 +8,7 @@ def run(tier, only=None):
     for h, c in hs:
         q.append({"name": "c15.history.h%d.c%d" % (h, c), "cfile": "glue_c07.c",
                   "defs": ["-DMODE_C15", "-DH=%d" % h, "-DKMAX=2", "-DNPROG=%d" % (h + 1), "-DGBUF=48", "-DLMAX=4", "-DCMAX=64",
-                           "-DCFIX=%d" % c], "unwindset": {"nop_padding.1": (c - 1) // 11 + 2},
+                           "-DCFIX=%d" % c, "-DCFIX2=%d" % (3 if c != 3 else 7)], "unwindset": {"nop_padding.1": (c - 1) // 11 + 2},
                   "timeout": 1500 if tier == "quick" else 5400})
     return gluechecks.run_queries(
         "C15", tier, q,
